@@ -438,3 +438,10 @@ MUTANTS = [
 ]
 
 REPAIRS = []
+
+EQUIV = [
+    dict(name='rename locals of LagControl._init_ugen', file='sc3/synth/ugens/inout.py', start='    def _init_ugen(self, *stuff):', end="    def __repr__(self):\n        return f'{type(self).__name__}.kr", rename=[('size2', 'half'), ('stuff', 'args')]),
+    dict(name='slot size through ControlName.channels', file='sc3/synth/synthdef.py',
+         old="                    cn.index = index\n                    index += len(utl.as_list(cn.default_value))\n                    arguments[cn.arg_num] = ctrl_ugens[i]\n                    self._set_control_names(ctrl_ugens[i], cn)\n\n        build_ita",
+         new="                    cn.index = index\n                    index += cn.channels\n                    arguments[cn.arg_num] = ctrl_ugens[i]\n                    self._set_control_names(ctrl_ugens[i], cn)\n\n        build_ita"),
+]
